@@ -67,6 +67,9 @@ type c20Cfg struct {
 	Warmup int `json:"earlier_connect_with_max,omitempty"`
 	// ZeroCfg: a ReadConfig is passed whose MaxEventSize is 0 (the default)
 	ZeroCfg bool `json:"zero_config,omitempty"`
+	// RetryFirst: the stream is what the connection receives on its first reconnection (the first attempt gets one
+	// comment and a clean end); the configuration was made once, before Connect
+	RetryFirst bool `json:"stream_arrives_on_first_reconnection,omitempty"`
 }
 
 func (c c20Cfg) limit() int {
@@ -87,6 +90,7 @@ var c20Cfgs = []c20Cfg{
 	{Entry: "read"}, {Entry: "read", ZeroCfg: true}, {Entry: "conn", NilBuf: true, BufMax: 1}, {Entry: "read", MaxEv: -1}, {Entry: "read", MaxEv: -70000}, {Entry: "read", MaxEv: 1}, {Entry: "read", MaxEv: 3}, {Entry: "read", MaxEv: 16}, {Entry: "read", MaxEv: 100},
 	{Entry: "read", MaxEv: 4096}, {Entry: "read", MaxEv: 65536}, {Entry: "read", MaxEv: 1 << 20}, {Entry: "read", MaxEv: 5000},
 	{Entry: "conn"}, {Entry: "conn", NilBuf: true, BufMax: 16}, {Entry: "conn", BufCap: 8, BufMax: 16}, {Entry: "conn", BufCap: 64, BufMax: 16},
+	{Entry: "conn", BufCap: 8192, BufMax: 100, RetryFirst: true}, {Entry: "conn", BufCap: 100000, RetryFirst: true}, {Entry: "conn", NilBuf: true, BufMax: 5000, RetryFirst: true}, {Entry: "conn", RetryFirst: true},
 	{Entry: "conn", BufCap: 4096, BufMax: 65536}, {Entry: "conn", NilBuf: true, BufMax: 1 << 20}, {Entry: "conn", NilBuf: true, BufMax: 100}, {Entry: "conn", BufCap: 100, BufMax: 1},
 }
 
@@ -102,8 +106,8 @@ func c20Run(cfg c20Cfg, rd *mon.ChunkReader) readObs {
 	if !cfg.NilBuf && cfg.BufCap > 0 {
 		buf = make([]byte, 0, cfg.BufCap)
 	}
-	runConnPreBuf, runConnWarmupMax = cfg.PreBuf, cfg.Warmup
-	defer func() { runConnPreBuf, runConnWarmupMax = 0, 0 }()
+	runConnPreBuf, runConnWarmupMax, runConnRetryFirst = cfg.PreBuf, cfg.Warmup, cfg.RetryFirst
+	defer func() { runConnPreBuf, runConnWarmupMax, runConnRetryFirst = 0, 0, false }()
 	return runConn(rd, buf, cfg.BufMax)
 }
 
@@ -275,9 +279,9 @@ func c20Endless(r *fw.Run, key string, cfg c20Cfg, prefix string, unit string, c
 		if !cfg.NilBuf && cfg.BufCap > 0 {
 			buf = make([]byte, 0, cfg.BufCap)
 		}
-		runConnPreBuf, runConnWarmupMax = cfg.PreBuf, cfg.Warmup
+		runConnPreBuf, runConnWarmupMax, runConnRetryFirst = cfg.PreBuf, cfg.Warmup, cfg.RetryFirst
 		obs = runConn(full, buf, cfg.BufMax)
-		runConnPreBuf, runConnWarmupMax = 0, 0
+		runConnPreBuf, runConnWarmupMax, runConnRetryFirst = 0, 0, false
 	}
 	r.Count("executions", 1)
 	r.Count("endless_executions", 1)
